@@ -154,18 +154,22 @@ Qed.
 Lemma step_ok o op : OtoInv o -> OtoInv (fst (oto_step o op)).
 Proof.
   intro H. destruct op as [k v|k|k d| | |k d|kvs|kvs|k]; simpl.
-  - now apply setitem_ok.
-  - destruct (d_get (o_fwd o) k) eqn:E; simpl; trivial. now apply delpair_ok.
-  - destruct (d_get (o_fwd o) k) eqn:E; simpl.
+  - destruct (unhashable v || unhashable k); simpl; trivial. now apply setitem_ok.
+  - destruct (unhashable k); simpl; trivial.
+    destruct (d_get (o_fwd o) k) eqn:E; simpl; trivial. now apply delpair_ok.
+  - destruct (unhashable k); simpl; trivial.
+    destruct (d_get (o_fwd o) k) eqn:E; simpl.
     + now apply delpair_ok.
     + destruct d; trivial.
   - destruct (rev (o_fwd o)) as [|[k v] r] eqn:E; simpl; trivial.
     destruct (popitem_shape o k v r (oi_ndf _ H) E) as [-> Hg]. now apply delpair_ok.
   - constructor; simpl; [constructor|constructor|]. intros k v. simpl. split; discriminate.
-  - destruct (d_get (o_fwd o) k); simpl; trivial. now apply setitem_ok.
-  - now apply update_ok.
-  - now apply update_ok.
-  - trivial.
+  - destruct (unhashable k); simpl; trivial.
+    destruct (d_get (o_fwd o) k); simpl; trivial.
+    destruct (unhashable d); simpl; trivial. now apply setitem_ok.
+  - destruct (existsb kv_unhashable kvs); simpl; trivial. now apply update_ok.
+  - destruct (existsb kv_unhashable kvs); simpl; trivial. now apply update_ok.
+  - destruct (unhashable k); trivial.
 Qed.
 
 Lemma step_side_ok s o op : OtoInv o -> OtoInv (fst (oto_step_side s o op)).
@@ -328,13 +332,19 @@ Proof. intros H Hx. apply Forall_app. split; [trivial|]. constructor; [trivial|c
 Lemma Forall_nth_error {A} (P : A -> Prop) l i x : Forall P l -> nth_error l i = Some x -> P x.
 Proof. intros H E. rewrite Forall_forall in H. apply H. eapply nth_error_In; eauto. Qed.
 
+Lemma oto_new_ok u kvs o : oto_new u kvs = Ok o -> OtoInv o.
+Proof.
+  unfold oto_new. destruct (new_rejects kvs); [discriminate|].
+  destruct u.
+  - apply init_unique_ok.
+  - intros [= <-]. apply init_ok.
+Qed.
+
 Lemma hstep_ok h hop : Forall OtoInv h -> Forall OtoInv (fst (oto_hstep h hop)).
 Proof.
   intro H. destruct hop as [u kvs|i s|i s op|ior i s j t]; simpl.
-  - destruct u.
-    + destruct (oto_init_unique kvs) eqn:E; simpl; trivial.
-      apply Forall_snoc; trivial. eapply init_unique_ok; eauto.
-    + simpl. apply Forall_snoc; trivial. apply init_ok.
+  - destruct (oto_new u kvs) eqn:E; simpl; trivial.
+    apply Forall_snoc; trivial. eapply oto_new_ok; eauto.
   - destruct (nth_error h i) eqn:E; simpl; trivial. apply Forall_snoc; trivial. apply init_ok.
   - destruct (nth_error h i) as [o|] eqn:E; simpl; trivial.
     pose proof (step_side_ok s o op (Forall_nth_error _ _ _ _ H E)) as H'.
